@@ -6,7 +6,8 @@ use crate::real::*;
 use crate::refmodel::*;
 use crate::universe::*;
 
-const SENTS: [&str; 7] = ["", "a", "ab c", "abc ", " ", "cab", "abcdefghijklmnopqrstuvwxyzzz"];
+// "ba  ": with ignore_space and a lexicon word "a " the word ends past the boundary EOS attaches to
+const SENTS: [&str; 8] = ["", "a", "ab c", "abc ", " ", "cab", "abcdefghijklmnopqrstuvwxyzzz", "ba  "];
 
 /// Per-sentence reference counts: (left id counts, right id counts), one count per
 /// (predecessor node, node) pair of the reference lattice plus the EOS pairs.
